@@ -64,6 +64,7 @@ type RunCfg struct {
 	WTime     int
 	Crashes   []CrashSpec
 	JobFaults map[string]string
+	ExtraFiles bool
 	SlowLabel string // tasks whose label contains this get SlowDiv times less weight
 	SlowDiv   int
 	Restarts  int  // maximal number of restarts the operator performs
@@ -114,6 +115,8 @@ type FileRec struct {
 	Content string
 	Job     *JobRec
 	Seq     int
+	Extra   bool // not named by any output
+	Tmp     bool // in the job's temporary directory
 }
 
 // OpEvent is an operator/simulator action in the history.
@@ -159,7 +162,33 @@ func (r *Run) noteFile(j *JobRec, p, content string) {
 	r.Files[p] = &FileRec{Path: p, Content: content, Job: j, Seq: vos.NextSeq()}
 }
 
-func (r *Run) extraFiles(j *JobRec, args map[string]interface{}) {}
+// extraFiles lets stage code write files that none of its outputs name, and
+// scratch files in its temporary directory (profiles with ExtraFiles set).
+func (r *Run) extraFiles(j *JobRec, args map[string]interface{}) {
+	if !r.Cfg.ExtraFiles {
+		return
+	}
+	h := hash64(r.FCfg.Salt, j.Key(), j.Phase)
+	if h%2 == 0 {
+		p := path.Join(j.FilesPath, "extra_unreferenced")
+		content := fmt.Sprintf("extra|%s|%s", j.Key(), j.Phase)
+		if vos.WriteFile(p, []byte(content), 0644) == nil {
+			j.check()
+			r.Files[p] = &FileRec{Path: p, Content: content, Job: j, Seq: vos.NextSeq(), Extra: true}
+		}
+	}
+	if (h/2)%2 == 0 {
+		td := path.Join(j.MetaPath, "tmp")
+		if st, err := os.Stat(td); err == nil && st.IsDir() {
+			p := path.Join(td, "scratch")
+			content := fmt.Sprintf("tmp|%s|%s", j.Key(), j.Phase)
+			if vos.WriteFile(p, []byte(content), 0644) == nil {
+				j.check()
+				r.Files[p] = &FileRec{Path: p, Content: content, Job: j, Seq: vos.NextSeq(), Tmp: true}
+			}
+		}
+	}
+}
 
 // normFiles replaces every absolute path inside the pipestance by a token made of
 // the content of the file it names, so that F does not depend on directory names.
